@@ -66,7 +66,20 @@ def handle (op : String) (j : Json) : Except String Json := do
   match op with
   | "acyclic" =>
     let p ← progOfJson (← j.getObjVal? "prog")
-    pure (Json.mkObj [("acyclic", .bool (slideAcyclic p)), ("bound", Json.num (JsonNumber.fromNat (slideBound p)))])
+    let cert := buildCert p
+    let ranked := certOk p cert
+    let starts : List (Nat × List Nat) ← match j.getObjVal? "starts" with
+      | .ok (.arr a) => a.toList.mapM fun e => do
+          let q ← e.getArr?
+          if h : q.size = 2 then do
+            let u ← q[0].getNat?
+            let st ← (← q[1].getArr?).toList.mapM (·.getNat?)
+            pure (u, st)
+          else throw "bad start"
+      | _ => pure []
+    pure (Json.mkObj [("acyclic", .bool (slideAcyclic p)), ("ranked", .bool ranked),
+      ("starts_ok", Json.arr (starts.map fun m => Json.bool (cert.allowed m.1 m.2)).toArray),
+      ("bound", Json.num (JsonNumber.fromNat (slideBound p)))])
   | "slide" =>
     let p ← progOfJson (← j.getObjVal? "prog")
     let pos ← (← j.getObjVal? "pos").getNat?
